@@ -35,6 +35,11 @@ package c15
 //                             links and with stray files; dry / measurement-only runs at library level (file key manager +
 //                             bucket authority, storage behind the recording double) and through the shipped command line,
 //                             the whole directory compared entry by entry (aud_state.go).
+//   fault positions           a dry run's call trace (authority, signer, key manager, storage, version control) is taken
+//                             without faults, then EVERY call of it fails in turn (once, twice in a row, from there on) in a
+//                             fresh run, on the recording doubles (library and command line) and on the file-backed
+//                             authority with the bucket present or absent; calls that change stored state of the authority
+//                             or the keys, the object store and the directory tree are judged (aud_fault.go).
 
 import (
 	"crypto/sha256"
@@ -66,6 +71,8 @@ type aud struct {
 	printedCompared                                                   int
 	// stored-state forms (aud_state.go)
 	nState, nStateCompleted, nStateLegacyKeyCompleted, nStateArmouredCert int
+	// faults at every position of a dry run (aud_fault.go)
+	nFaultProbe, nFaultProbeCompleted, nFault, nFaultReached, nFaultFirstLookup int
 }
 
 func runAudit(c *core.Ctx, a *authority.Assembly) {
@@ -86,6 +93,14 @@ func runAudit(c *core.Ctx, a *authority.Assembly) {
 	each(c.N(24, 160), au.nonprodCase)
 	each(c.N(48, 320), au.burstCase)
 	each(c.N(48, 288), au.stateCase)
+	each(c.N(36, 240), au.faultCase)
+	c.Count("audit/fault-positions-probe-dry-runs-judged", au.nFaultProbe)
+	c.Count("audit/fault-positions-probe-dry-runs-completed", au.nFaultProbeCompleted)
+	c.Count("audit/fault-positions-faulted-dry-runs-judged", au.nFault)
+	c.Count("audit/fault-positions-faulted-dry-runs-whose-fault-was-reached", au.nFaultReached)
+	c.Count("audit/fault-positions-dry-runs-whose-first-authority-call-failed", au.nFaultFirstLookup)
+	c.Floor("audit-fault-positions-probe-dry-runs-completed", au.nFaultProbeCompleted > 0)
+	c.Floor("audit-fault-positions-faulted-dry-runs-judged", au.nFaultReached > 0 && au.nFaultFirstLookup > 0)
 	c.Count("audit/kept-request-sequence-runs-judged", au.nSeqKept)
 	c.Count("audit/fresh-value-sequence-runs-judged", au.nSeqFresh)
 	c.Count("audit/concurrent-runs-judged", au.nConc)
